@@ -103,6 +103,9 @@ pub struct OptSpec {
     pub provided: Option<u64>,
     pub memlimit: Option<usize>,
     pub allow_incomplete: bool,
+    /// use the convenience entry points (lzma_decompress, Stream::new) where the
+    /// options are the defaults
+    pub wrapper: bool,
 }
 
 impl OptSpec {
@@ -128,6 +131,9 @@ impl OptSpec {
         if self.allow_incomplete {
             sc.set_i("opt_allow_incomplete", 1);
         }
+        if self.wrapper {
+            sc.set_i("opt_wrapper", 1);
+        }
     }
     pub fn load(sc: &Scenario) -> OptSpec {
         OptSpec {
@@ -135,6 +141,7 @@ impl OptSpec {
             provided: sc.opt_i("opt_provided"),
             memlimit: sc.opt_i("opt_memlimit").map(|x| x as usize),
             allow_incomplete: sc.i("opt_allow_incomplete") != 0,
+            wrapper: sc.i("opt_wrapper") != 0,
         }
     }
     pub fn header_len(&self) -> usize {
@@ -197,7 +204,12 @@ pub fn call_decoder<R: BufRead, W: Write>(
     let res = guarded(|| -> Result<(), String> {
         match ep {
             EP_LZMA => {
-                lzma_rs::lzma_decompress_with_options(r, w, &opts.to_options()).map_err(errstr)
+                if opts.wrapper && opts.mode == 0 && opts.memlimit.is_none() && !opts.allow_incomplete {
+                    // the convenience wrapper with default options (same thing by contract)
+                    lzma_rs::lzma_decompress(r, w).map_err(errstr)
+                } else {
+                    lzma_rs::lzma_decompress_with_options(r, w, &opts.to_options()).map_err(errstr)
+                }
             }
             EP_LZMA2 => lzma_rs::lzma2_decompress(r, w).map_err(errstr),
             EP_XZ => lzma_rs::xz_decompress(r, w).map_err(errstr),
@@ -213,12 +225,24 @@ pub fn call_decoder<R: BufRead, W: Write>(
                     raw.size,
                 );
                 let mut d = LzmaDecoder::new(params, opts.memlimit).map_err(errstr)?;
-                d.decompress(r, w).map_err(errstr)
+                let res = d.decompress(r, w).map_err(errstr);
+                // Debug output is exercised (must not panic) but not metered as decoding
+                // memory; only for small literal tables (it prints every probability)
+                if raw.lc + raw.lp <= 2 {
+                    crate::heap::driver(|| drop(format!("{:?}", d)));
+                }
+                res
             }
             EP_RAW_LZMA2 => {
                 use lzma_rs::decompress::raw::Lzma2Decoder;
-                let mut d = Lzma2Decoder::new();
-                d.decompress(r, w).map_err(errstr)
+                let mut d = if raw.dict & 1 == 1 { Lzma2Decoder::default() } else { Lzma2Decoder::new() };
+                let res = d.decompress(r, w).map_err(errstr);
+                // Debug output is exercised (must not panic) but not metered as decoding
+                // memory; only for small literal tables (it prints every probability)
+                if raw.lc + raw.lp <= 2 {
+                    crate::heap::driver(|| drop(format!("{:?}", d)));
+                }
+                res
             }
             _ => Err("driver: not a decoder".into()),
         }
@@ -242,7 +266,11 @@ pub fn call_encoder<R: BufRead, W: Write>(ep: u64, r: &mut R, w: &mut W, enc_mod
                         _ => compress::UnpackedSize::SkipWritingToHeader,
                     },
                 };
-                lzma_rs::lzma_compress_with_options(r, w, &o).map_err(errstr)
+                if enc_mode == 0 && enc_size & 1 == 1 {
+                    lzma_rs::lzma_compress(r, w).map_err(errstr)
+                } else {
+                    lzma_rs::lzma_compress_with_options(r, w, &o).map_err(errstr)
+                }
             }
             EP_C_LZMA2 => lzma_rs::lzma2_compress(r, w).map_err(errstr),
             EP_C_XZ => lzma_rs::xz_compress(r, w).map_err(errstr),
@@ -400,6 +428,7 @@ pub const OP_FINISH: u64 = 3;
 pub const OP_WRITE_ALL: u64 = 4; // offer everything that is left, write_all style
 pub const OP_WRITE_N: u64 = 5; // feed exactly the next arg bytes, write_all style
 pub const OP_PEEK_MUT: u64 = 6; // get_output_mut
+pub const OP_DEBUG: u64 = 7; // format!("{:?}", stream)
 
 #[derive(Clone, Debug)]
 pub struct StreamEvent {
@@ -453,7 +482,12 @@ pub fn run_stream(
     };
     let options = opts.to_options();
     let r = guarded(|| {
-        let mut stream = Some(Stream::new_with_options(&options, sink));
+        let default_opts = opts.mode == 0 && opts.memlimit.is_none() && !opts.allow_incomplete;
+        let mut stream = Some(if default_opts && opts.wrapper {
+            Stream::new(sink)
+        } else {
+            Stream::new_with_options(&options, sink)
+        });
         let mut pos = 0usize;
         let mut dead = false;
         for p in ops.chunks(2) {
@@ -565,6 +599,9 @@ pub fn run_stream(
                         sink_len: st.borrow().accepted.len(),
                             fault_fired: st.borrow().fired_hard > fired_before,
                     }));
+                }
+                OP_DEBUG => {
+                    crate::heap::driver(|| drop(format!("{:?}", s)));
                 }
                 OP_FINISH => {
                     let s = stream.take().unwrap();
